@@ -62,6 +62,23 @@ def gen_acc_cases(rng, tier):
             argsets = [(k, v) for k in masks for v in ((0, 1) if ps[1] == 1 else values_for(rng, ps[1], tier, 4))]
         lines = []
         meta = []
+        # relational inputs: the object already holds a transformation of the value about to be written (the same value, its byte
+        # reversal, complement, neighbours, in either byte order, at every aligned position) - early-outs / caches of setters live here
+        if len(ps) >= 1 and m.get('writes'):
+            w = ps[0]
+            nrel = 6 if tier == 'quick' else 40
+            cand = [v for v in values_for(rng, w, tier, 0) if v not in (0, (1 << w) - 1)]
+            picks = sorted(set([v for v in cand if v & (v - 1) == 0] + ([cand[rng.below(len(cand))] for _ in range(min(nrel, len(cand)))] if cand else [])))
+            for v in picks:
+                for nb in sorted(set([1, 2, 4, 8]) & set([(w + 7) // 8, 1 << max(0, ((w + 7) // 8 - 1)).bit_length()] + [4])):
+                    mask = (1 << (8 * nb)) - 1
+                    for t in (v, ~v, v + 1, v - 1, int.from_bytes((v & mask).to_bytes(nb, 'big'), 'little')):
+                        for order in ('big', 'little'):
+                            unit = (t & mask).to_bytes(nb, order)
+                            bg = (unit * (size // nb + 1))[:size]
+                            a2 = 0 if len(ps) == 1 else 1
+                            lines.append('ACC %d %d %d %d %s' % (m['cls'], m['id'], v, a2, hx(bg)))
+                            meta.append((v, a2, bg))
         for bg in bgs:
             for (a1, a2) in argsets:
                 lines.append('ACC %d %d %d %d %s' % (m['cls'], m['id'], a1, a2, hx(bg)))
@@ -120,7 +137,8 @@ def run_acc(res, rng, layout_only):
         m = c.meta['method']
         il = impl.get(c.cid, [])
         for k, (a1, a2, bg) in enumerate(c.meta['args']):
-            gq.append('G %s %d %d %s' % (m['name'], a1, a2, hx(bg))); gmap.append((c, k))
+            if m.get('model', True):
+                gq.append('G %s %d %d %s' % (m['name'], a1, a2, hx(bg))); gmap.append((c, k))
             for s in spec.get(m['name'], []):
                 if s['mask'] != '-' and int(s['mask']) != a1:
                     continue
